@@ -200,13 +200,19 @@ def build_game(case):
 
 
 @st.composite
-def tf_strategy(draw, shape, max_pad=1, allow_swap=True, equal_pad=False, force=False):
-    """Transformation spec for a game whose pred has ``shape``; drawn explicitly so that it shrinks to the identity."""
+def tf_strategy(draw, shape, max_pad=1, allow_swap=True, equal_pad=False, relabel=True):
+    """Transformation spec for a game whose pred has ``shape``; drawn explicitly so that it shrinks to the identity.
+    relabel=False: no answer padding and no answer relabelling (questions, players, referee basis only)."""
     r, _, na, nb, nx, ny = shape
-    pa = draw(st.integers(0, max_pad))
-    pb = pa if equal_pad else draw(st.integers(0, max_pad))
-    sa = [list(draw(st.permutations(list(range(na + pa))))) for _ in range(nx)]
-    sb = [list(draw(st.permutations(list(range(nb + pb))))) for _ in range(ny)]
+    if relabel:
+        pa = draw(st.integers(0, max_pad))
+        pb = pa if equal_pad else draw(st.integers(0, max_pad))
+        sa = [list(draw(st.permutations(list(range(na + pa))))) for _ in range(nx)]
+        sb = [list(draw(st.permutations(list(range(nb + pb))))) for _ in range(ny)]
+    else:
+        pa = pb = 0
+        sa = [list(range(na)) for _ in range(nx)]
+        sb = [list(range(nb)) for _ in range(ny)]
     qx = list(draw(st.permutations(list(range(nx)))))
     qy = list(draw(st.permutations(list(range(ny)))))
     basis = draw(st.sampled_from(["none", "real", "complex"])) if r > 1 else "none"
